@@ -5,6 +5,7 @@ import (
 	"fmt"
 	"math/rand"
 	"reflect"
+	"strings"
 
 	"free5gclib/nas"
 
@@ -104,9 +105,9 @@ func fillMember(r *rand.Rand, v reflect.Value, mem nasdesc.Member, n int) {
 		}
 		v.Field(ln).SetUint(uint64(n))
 		if buffer >= 0 {
-			v.Field(buffer).SetBytes(fillBytes(r, n))
+			v.Field(buffer).SetBytes(shapeBytes(r, mem.Name, fillBytes(r, n)))
 		} else if octet >= 0 && t.Field(octet).Type.Kind() == reflect.Array {
-			b := fillBytes(r, n)
+			b := shapeBytes(r, mem.Name, fillBytes(r, n))
 			for i := 0; i < n; i++ {
 				v.Field(octet).Index(i).SetUint(uint64(b[i]))
 			}
@@ -145,6 +146,54 @@ func fillBytes(r *rand.Rand, n int) []byte {
 		}
 	default:
 		r.Read(b)
+	}
+	return b
+}
+
+// shapeBytes: one value in three is given the SHAPE of what such an IE carries - an EAP packet (code, identifier, 16-bit
+// length that is smaller than / equal to / larger than the IE), a NAS message inside a container (plain, or behind a
+// security header), or a run of length-prefixed units - because a codec that is tempted to look INSIDE a value does so
+// only when the value looks right. To the codec all of it is opaque content.
+func shapeBytes(r *rand.Rand, name string, b []byte) []byte {
+	n := len(b)
+	if n < 4 || r.Intn(3) != 0 {
+		return b
+	}
+	switch {
+	case strings.Contains(name, "EAP"):
+		b[0] = byte(1 + r.Intn(4)) // Request / Response / Success / Failure
+		l := pick(r, n, 4, n-1, n+1, 0, 0xffff, n/2)
+		b[2], b[3] = byte(l>>8), byte(l)
+		if n > 4 {
+			b[4] = byte(pick(r, 50, 1, 3, 13, 23, 254)) // EAP-AKA', Identity, Nak, TLS, AKA, expanded
+		}
+	case strings.Contains(name, "Container") || strings.Contains(name, "NASMessage"):
+		inner := 0
+		if n >= 12 && r.Intn(2) == 0 { // a security protected message around a plain one
+			b[0], b[1] = 0x7e, byte(1+r.Intn(4))
+			inner = 7
+		}
+		b[inner], b[inner+1] = byte(pick(r, 0x7e, 0x7e, 0x2e)), 0x00
+		if inner+2 < n {
+			b[inner+2] = byte(pick(r, 0x41, 0x5c, 0x5e, 0x67, 0x4c, 0x45, 0xc1, 0x54))
+		}
+	default:
+		switch r.Intn(4) {
+		case 0: // one length octet in front announcing the rest (or one more / one less)
+			b[0] = byte(pick(r, n-1, n, n-2))
+		case 1: // a 16-bit length in front
+			l := pick(r, n-2, n-1, n-3, n)
+			b[0], b[1] = byte(l>>8), byte(l)
+		default: // a run of (tag, length, value) units that fills the value exactly
+			for i := 0; i+2 <= n; {
+				l := r.Intn(minInt(n-i-2, 12) + 1)
+				if n-i-2-l == 1 {
+					l++ // no single octet left over
+				}
+				b[i+1] = byte(l)
+				i += 2 + l
+			}
+		}
 	}
 	return b
 }
